@@ -7,6 +7,7 @@
 //	      -chan parallelisation/parallelisation.go            (R1 go, R2 channel ops, R2s select)
 //	      -swapsync parallelisation/cancel_functions.go       (R3: "sync"/go-deadlock -> explorer-visible shims)
 //	      -builder logs/string_logger.go                      (R4: strings.Builder -> verifrt.Builder)
+//	      -stdstreams logs/std_logger.go                      (R7: os.Stdout / os.Stderr -> verifrt.Stdout / verifrt.Stderr)
 //	      -add subprocess/export_verif.go=/verif/checks/c18/export.go.txt   (R5: overlay-only file)
 package main
 
@@ -447,12 +448,13 @@ func swapImport(f *ast.File, from, to, name string) bool {
 }
 
 func main() {
-	var chanFiles, swapFiles, builderFiles, addFiles multi
+	var chanFiles, swapFiles, builderFiles, addFiles, stdFiles multi
 	id := flag.String("id", "", "check id")
 	out := flag.String("out", "", "output directory")
 	flag.Var(&chanFiles, "chan", "file (relative to /repo/utils) to rewrite with R1/R2/R2s")
 	flag.Var(&swapFiles, "swapsync", "file whose sync / go-deadlock imports are swapped for the shims (R3)")
 	flag.Var(&builderFiles, "builder", "file whose strings.Builder becomes verifrt.Builder (R4)")
+	flag.Var(&stdFiles, "stdstreams", "file whose os.Stdout / os.Stderr become verifrt.Stdout / verifrt.Stderr: every write is a scheduling point and lands in the harness's sink (R7)")
 	flag.Var(&addFiles, "add", "relpath=source : overlay-only file (R5)")
 	var eventSpecs multi
 	flag.Var(&eventSpecs, "events", "file:Func1,Func2 : announce the entry of these functions / methods through verifrt.Event (R6)")
@@ -481,7 +483,7 @@ func main() {
 	for f := range events {
 		all[f] = true
 	}
-	for _, l := range [][]string{chanFiles, swapFiles, builderFiles} {
+	for _, l := range [][]string{chanFiles, swapFiles, builderFiles, stdFiles} {
 		for _, f := range l {
 			all[f] = true
 		}
@@ -572,6 +574,22 @@ func main() {
 			}
 			r.usedRT = true
 		}
+		if in(stdFiles, rel) {
+			n := 0
+			ast.Inspect(f, func(x ast.Node) bool {
+				if se, ok := x.(*ast.SelectorExpr); ok {
+					if id, ok := se.X.(*ast.Ident); ok && id.Name == "os" && (se.Sel.Name == "Stdout" || se.Sel.Name == "Stderr") {
+						id.Name = "verifrt"
+						n++
+					}
+				}
+				return true
+			})
+			if n == 0 {
+				fmt.Fprintf(os.Stderr, "[instr] note: %s uses neither os.Stdout nor os.Stderr; left as it is\n", rel)
+			}
+			r.usedRT = true
+		}
 		if r.usedRT {
 			addImport(f, rtImport, "")
 		}
@@ -585,6 +603,9 @@ func main() {
 		txt := buf.String()
 		if in(builderFiles, rel) && !strings.Contains(strings.SplitN(txt, ")", 2)[1], "strings.") {
 			txt += "\nvar _ = strings.TrimSpace\n"
+		}
+		if in(stdFiles, rel) && !strings.Contains(strings.SplitN(txt, ")", 2)[1], "os.") {
+			txt += "\nvar _ = os.Getpid\n"
 		}
 		dst := filepath.Join(*out, strings.ReplaceAll(rel, "/", "__"))
 		if err := os.WriteFile(dst, []byte(txt), 0o644); err != nil {
